@@ -158,6 +158,14 @@ pub open spec fn st_funds_eq(a: State, b: State) -> bool {
                         || (caller != i0.owner && i0.pending_beneficiary_term->Some_0.approved_by_beneficiary)))
             // used quota resets only when the beneficiary actually changes
             &&& (i1.beneficiary == i0.beneficiary ==> i1.beneficiary_term.used_quota@ == i0.beneficiary_term.used_quota@)
+            // a NEW beneficiary starts a fresh term: nothing used yet, with exactly the approved quota and expiration
+            // (otherwise its term would look exhausted and the owner could replace it without its approval)
+            &&& (i1.beneficiary != i0.beneficiary ==> i1.beneficiary_term.used_quota@ == 0
+                    && i1.beneficiary_term.quota@ == params.new_quota@ && i1.beneficiary_term.expiration == params.new_expiration
+                    && i1.pending_beneficiary_term.is_none())
+            // while a proposal is only pending, the current term is untouched
+            &&& (i1.pending_beneficiary_term.is_some() ==> i1.beneficiary == i0.beneficiary && i1.beneficiary_term.quota@ == i0.beneficiary_term.quota@
+                    && i1.beneficiary_term.expiration == i0.beneficiary_term.expiration)
             // owner, worker and control addresses are never touched here
             &&& i1.owner == i0.owner && i1.worker == i0.worker && i1.control_addresses == i0.control_addresses
             &&& i1.pending_owner_address == i0.pending_owner_address && i1.pending_worker_key == i0.pending_worker_key
